@@ -718,7 +718,10 @@ class Derive:
             elif cls in ("srvfail", "closed", "silent"):
                 dead = self.idle_srv(a, dead=True) if a else []
                 if len(dead) == 1:
-                    ops += ["CheckoutOk %d %d" % (cid, dead[0]), "ExitErr %d true" % cid]
+                    # a dead connection was handed out.  If the failure shows while the pooler syncs the client's
+                    # parameters (client.rs sync_parameters()?: no pool.ban, no message) the socket just closes;
+                    # if it shows while relaying (receive_server_message: ban + "error receiving data") the address is charged
+                    ops += ["CheckoutOk %d %d" % (cid, dead[0]), "ExitErr %d %s" % (cid, "true" if cls == "srvfail" else "false")]
                     drops.append(dead[0])
                     self.after_exit(c)
                 else:
